@@ -24,7 +24,8 @@ let show_err = function
   | EMaxSubscribers -> "eMaxSub" | EBufferSize -> "eBuf" | EHistoryService -> "eHistSvc"
   | EHistoryBuffer -> "eHistBuf"
 let show_pl p = Printf.sprintf "%d.%d" (int_of_nat p.pl_pub) (int_of_n p.pl_seq)
-let show_obs = function
+let rec show_obs_base o = show_obs o
+and show_obs = function
   | BNa -> "-" | BOk -> "ok" | BCreated i -> "c" ^ string_of_int (int_of_nat i)
   | BErr e -> show_err e
   | BLoaned (id, ch) -> Printf.sprintf "l%d@%d" (int_of_nat id) (int_of_nat ch)
@@ -35,10 +36,27 @@ let show_obs = function
   | BExh (k, e) -> Printf.sprintf "x%d:%s" (int_of_nat k) (show_err e)
   | BFiles (c, d) -> Printf.sprintf "c%dd%d" (int_of_nat c) (int_of_nat d)
   | BBlocks -> "BLOCKS"
+  | BWith (o, _) -> show_obs_base o
+let show_hev = function
+  | HvDrop id -> Printf.sprintf "d:%d" (int_of_nat id) | HvDropNone -> "d:-"
+  | HvRecv (s, id, origin, pl) -> Printf.sprintf "r:%d:x%d:%d:%s" (int_of_nat s) (int_of_nat id) (int_of_nat origin) (show_pl pl)
+  | HvRecvNone s -> Printf.sprintf "r:%d:none" (int_of_nat s) | HvRecvBorrow s -> Printf.sprintf "r:%d:eBorrow" (int_of_nat s) | HvNa -> "r:na"
+let show_trace = function BWith (_, tr) -> String.concat " " (List.map show_hev tr) | _ -> ""
 let show_canary l = String.concat " " (List.map (fun (id, pl) -> Printf.sprintf "%d=%s" (int_of_nat id) (show_pl pl)) l)
 
 let parse_hmode s =
-  if s = "-" then HNone else begin
+  if s = "-" then HNone
+  else if String.exists (fun ch -> ch = 'D' || ch = 'R') s then begin
+    (* groups: a run of actions (D = drop the oldest held sample, R = receive) closed by one answer letter *)
+    let act = function 'r' -> BRetry | 'd' -> BDiscard | 'f' -> BDiscardFail | 'o' -> BFollow | _ -> failwith "hmode" in
+    let groups = ref [] and cur = ref [] in
+    String.iter (fun ch -> match ch with
+      | 'D' -> cur := HDrop :: !cur | 'R' -> cur := HRecv :: !cur
+      | ch -> groups := { g_acts = List.rev !cur; g_ans = act ch } :: !groups; cur := []) s;
+    (match !groups with
+     | last :: rest -> HActs (List.rev rest, last)
+     | [] -> failwith "hmode: no answer")
+  end else begin
     let act = function 'r' -> BRetry | 'd' -> BDiscard | 'f' -> BDiscardFail | 'o' -> BFollow | _ -> failwith "hmode" in
     let n = String.length s in
     let script = List.init (n - 1) (fun i -> act s.[i]) in
@@ -77,6 +95,18 @@ let () =
   let dead = ref false in
   (* what the implementation itself showed at receive time: sample id -> content (model-free canary oracle) *)
   let impl_expect : (string, string) Hashtbl.t = Hashtbl.create 64 in
+  (* model-free bookkeeping from the implementation's own observations *)
+  let held : (string, string * string) Hashtbl.t = Hashtbl.create 64 in   (* sample id -> (subscriber, origin) *)
+  let pub_l : (string, int) Hashtbl.t = Hashtbl.create 8 in               (* publisher -> max_loaned_samples *)
+  let loans : (string, string) Hashtbl.t = Hashtbl.create 16 in           (* loan id -> publisher *)
+  let case_m = ref 1 in
+  (* delivered-but-not-yet-received payloads per (subscriber, publisher); only maintained when the service
+     allows one subscriber and has no overflow and no history (then `n1` names the recipient and nothing may be skipped) *)
+  let track_delivery = ref false and cur_sub = ref "" in
+  let pub_seq : (string, int) Hashtbl.t = Hashtbl.create 8 in
+  let loan_pl : (string, string) Hashtbl.t = Hashtbl.create 16 in
+  let pending : (string * string, string list) Hashtbl.t = Hashtbl.create 8 in
+  let pending_skip = ref None in
   let printed = Hashtbl.create 64 in
   let last_line = ref "" in
   let case_saturated = ref false and case_canary_bad = ref false and inv_bad = ref false in
@@ -99,6 +129,9 @@ let () =
       match toks with
       | "C" :: _variant :: s :: p :: b :: m :: h :: ovf :: e :: _ ->
         flush_case (); incr case_no; op_no := 0; dead := false; Hashtbl.reset impl_expect;
+        Hashtbl.reset held; Hashtbl.reset pub_l; Hashtbl.reset loans; case_m := max 1 (int_of_string m);
+        Hashtbl.reset pub_seq; Hashtbl.reset loan_pl; Hashtbl.reset pending; pending_skip := None; cur_sub := "";
+        track_delivery := (s = "1" && ovf = "0" && h = "0");
         Buffer.add_string cur_case (String.concat " " [s; p; b; m; h; ovf; e] ^ "|");
         let i x = nat_of_int (int_of_string x) in
         let cfg = { cf_S = i s; cf_P = i p; cf_B = i b; cf_M = i m; cf_H = i h; cf_ovf = (ovf = "1"); cf_E = i e } in
@@ -110,11 +143,75 @@ let () =
         let impl = match obs with o :: _ -> o | [] -> "?" in
         Buffer.add_string cur_case (name ^ " " ^ String.concat " " args ^ ";");
         bump opcount name;
-        (* "x<id>:<origin>:<content>" *)
-        (if name = "rx" && String.length impl > 1 && impl.[0] = 'x' then
-           match String.split_on_char ':' impl with
-           | [xid; _; pl] -> Hashtbl.replace impl_expect (String.sub xid 1 (String.length xid - 1)) pl
-           | _ -> ());
+        let impl_trace = (match obs with _ :: "H" :: t -> String.concat " " t | _ -> "") in
+        (* ---- oracles that need only the implementation's own observations (always evaluated) ---- *)
+        let borrow_check sub =
+          (* receive may answer ExceedsMaxBorrows only if the subscriber holds max_borrowed samples of some publisher *)
+          let per = Hashtbl.create 4 in
+          Hashtbl.iter (fun _ (sb, orig) -> if sb = sub then Hashtbl.replace per orig (1 + try Hashtbl.find per orig with Not_found -> 0)) held;
+          let mx = Hashtbl.fold (fun _ v a -> max v a) per 0 in
+          if mx < !case_m then begin
+            incr mm_spec; bump extra "borrow_rejected_below_limit";
+            report "specborrow" (Printf.sprintf "MISMATCH case=%d op=%d kind=spec prop=C08 key=pubsub:exceeds-max-borrows-while-holding-fewer line=[%s] spec=receive-accepted(holding %d < M=%d of every publisher) impl=eBorrow\n" !case_no !op_no line mx !case_m) end in
+        let next_pl p = let q = (try Hashtbl.find pub_seq p with Not_found -> 0) in Hashtbl.replace pub_seq p (q + 1); Printf.sprintf "%s.%d" p q in
+        let delivered p pl = if !track_delivery && !cur_sub <> "" then
+            Hashtbl.replace pending (!cur_sub, p) ((try Hashtbl.find pending (!cur_sub, p) with Not_found -> []) @ [pl]) in
+        let note_rx sub tok =   (* "x<id>:<origin>:<content>" | none | eBorrow *)
+          if tok = "eBorrow" then borrow_check sub
+          else if tok = "none" then begin
+            (* nothing left to receive: then nothing that was counted as delivered to this subscriber may be outstanding *)
+            let out = Hashtbl.fold (fun (sb, p) q a -> if sb = sub && q <> [] then (p ^ ":" ^ String.concat "," q) :: a else a) pending [] in
+            if out <> [] then begin
+              pending_skip := Some ("receive returned none although delivered samples were never received: " ^ String.concat " " out);
+              Hashtbl.iter (fun (sb, p) _ -> if sb = sub then Hashtbl.replace pending (sb, p) []) (Hashtbl.copy pending) end
+          end
+          else if String.length tok > 1 && tok.[0] = 'x' then
+            match String.split_on_char ':' tok with
+            | [xid; orig; pl] ->
+              let id = String.sub xid 1 (String.length xid - 1) in
+              Hashtbl.replace impl_expect id pl; Hashtbl.replace held id (sub, orig);
+              (* every sample counted as delivered is received, in the publisher's send order: nothing before it is skipped *)
+              (match Hashtbl.find_opt pending (sub, orig) with
+               | Some q when List.mem pl q ->
+                 let rec cut acc = function x :: t when x <> pl -> cut (x :: acc) t | _ :: t -> (List.rev acc, t) | [] -> (List.rev acc, []) in
+                 let (skipped, rest) = cut [] q in
+                 Hashtbl.replace pending (sub, orig) rest;
+                 if skipped <> [] then pending_skip := Some (Printf.sprintf "received %s from publisher %s although %s was delivered before it and never received" pl orig (String.concat "," skipped))
+               | _ -> ())
+            | _ -> () in
+        (match name, args with
+         | "rx", [sub] -> note_rx sub impl
+         | "rd", [id] -> if impl = "ok" then Hashtbl.remove held id
+         | "sc", _ -> if String.length impl > 1 && impl.[0] = 'c' then cur_sub := String.sub impl 1 (String.length impl - 1)
+         | "sd", [id] -> if !cur_sub = id then cur_sub := ""
+         | "wr", [id] -> (match Hashtbl.find_opt loans id with Some p -> Hashtbl.replace loan_pl id (next_pl p) | None -> ())
+         | "sn", [p] -> if impl <> "eLoans" && impl <> "eOom" && impl <> "P" && impl <> "-" then begin
+             let pl = next_pl p in if impl = "n1" then delivered p pl end
+         | "pc", l :: _ -> if String.length impl > 1 && impl.[0] = 'c' then Hashtbl.replace pub_l (String.sub impl 1 (String.length impl - 1)) (int_of_string l)
+         | "ln", [p] -> if String.length impl > 1 && impl.[0] = 'l' then
+             (match String.index_opt impl '@' with
+              | Some i -> let id = String.sub impl 1 (i - 1) in Hashtbl.replace loans id p; Hashtbl.replace loan_pl id (next_pl p)
+              | None -> ())
+         | "snd", [id] ->
+           (match Hashtbl.find_opt loans id, Hashtbl.find_opt loan_pl id with
+            | Some p, Some pl -> if impl = "n1" then delivered p pl
+            | _ -> ());
+           Hashtbl.remove loans id
+         | "ld", [id] -> Hashtbl.remove loans id
+         | "ex", [p] when impl <> "-" && impl <> "P" ->
+           let live = Hashtbl.fold (fun _ q a -> if q = p then a + 1 else a) loans 0 in
+           (match Hashtbl.find_opt pub_l p with
+            | Some l ->
+              let want = Printf.sprintf "x%d:eLoans" (max 0 (l - live)) in
+              if impl <> want && !dead then begin   (* while the model runs, spec_obs reports the same thing *)
+                incr mm_spec;
+                report "deadex" (Printf.sprintf "MISMATCH case=%d op=%d kind=spec prop=C02,C08 key=pubsub:exhaustion-probe-differs line=[%s] spec=%s impl=%s (after model divergence)\n" !case_no !op_no line want impl) end
+            | None -> ())
+         | _ -> ());
+        List.iter (fun tok -> match String.split_on_char ':' tok with
+          | ["d"; id] -> Hashtbl.remove held id
+          | "r" :: sub :: rest when rest <> [] -> note_rx sub (String.concat ":" rest)
+          | _ -> ()) (match obs with _ :: "H" :: t -> t | _ -> []);
         if !dead then begin
           (* the model replay stopped at the first kind=model mismatch of this case; the oracles that need
              only the implementation's own observations keep running: no panic, no OutOfMemory *)
@@ -151,9 +248,10 @@ let () =
                let om = (if String.length impl > 2 && String.sub impl (String.length impl - 2) 2 = "@?" then
                             (match String.index_opt om '@' with Some i -> String.sub om 0 i ^ "@?" | None -> om) else om) in
                let om = if name = "fc" && impl = "-" then "-" else om in   (* local services have no files *)
-               if om <> impl then begin
+               let omt = om ^ (match show_trace mo with "" -> "" | t -> " H " ^ t) and implt = impl ^ (if impl_trace = "" then "" else " H " ^ impl_trace) in
+               if omt <> implt then begin
                  incr mm_model; dead := true;
-                 report ("model" ^ name) (Printf.sprintf "MISMATCH case=%d op=%d kind=model prop=C01 key=pubsub:model line=[%s] model=%s impl=%s\n" !case_no !op_no line om impl) end
+                 report ("model" ^ name) (Printf.sprintf "MISMATCH case=%d op=%d kind=model prop=C01 key=pubsub:model line=[%s] model=%s impl=%s\n" !case_no !op_no line omt implt) end
                else begin
                  (* reference values *)
                  let os = show_obs (spec_obs w0 o mo) in
@@ -199,6 +297,16 @@ let () =
                end;
                w := Some w1)
         end
+        ;
+        (* a skipped delivered sample that the model did not predict (it disagrees on this very line, or its replay has
+           stopped): the property fails on the implementation's own observations.  When the model agrees the skip is one
+           of the loss classes the model has (reported through lost_delivery above). *)
+        (match !pending_skip with
+         | Some msg when !dead ->
+           incr mm_spec;
+           report "specskip" (Printf.sprintf "MISMATCH case=%d op=%d kind=spec prop=C01 key=pubsub:delivered-sample-skipped line=[%s] spec=every-delivered-sample-received-in-order impl=%s\n" !case_no !op_no line (String.map (fun ch -> if ch = ' ' then '_' else ch) msg))
+         | _ -> ());
+        pending_skip := None
       | "K" :: vals ->
         if !dead then begin
           (* model-free canary: every held sample still shows what the implementation showed at receive time *)
